@@ -4861,7 +4861,7 @@ func (t *Terminal) Loop() error {
 				return nil
 			}
 		}
-		previousInput := t.input
+		previousInput := string(t.input)
 		previousCx := t.cx
 		t.lastKey = event.KeyName()
 		events := []util.EventType{}
@@ -6099,7 +6099,7 @@ func (t *Terminal) Loop() error {
 			if !t.inputless {
 				t.truncateQuery()
 			}
-			queryChanged = queryChanged || t.pasting == nil && string(previousInput) != string(t.input)
+			queryChanged = queryChanged || t.pasting == nil && previousInput != string(t.input)
 			changed = changed || queryChanged
 			if onChanges, prs := t.keymap[tui.Change.AsEvent()]; queryChanged && prs && !doActions(onChanges) {
 				continue
